@@ -566,8 +566,8 @@ class EvolvedMF:
             # Find remnant mass and which bin they go into
             m_rem, cls_rem = self.IFMR.predict(mto), self.IFMR.predict_type(mto)
 
-            # Skip 0-mass remnants
-            if m_rem > 0:
+            # Skip 0-mass remnants (and do nothing if no stars are turning off)
+            if m_rem > 0 and dNdt < 0:
 
                 # Find bin based on lower bin edge (must be careful later)
                 irem = self.massbins.determine_index(m_rem, cls_rem)
